@@ -140,7 +140,7 @@ def check_rows(case):
 @st.composite
 def _cases(draw, name, tier="quick"):
     entry = R.ENTRIES[name]
-    spec = R.spec_for(name, draw, draw(st.integers(0, 1)))
+    spec = R.spec_for(name, draw, draw(st.integers(0, 11)))
     if name == "ConstraintKMeans":
         spec["params"]["balanced_predictions"] = False       # the documented exception of the statement
     data = entry.data(draw)
